@@ -12,7 +12,10 @@ from .common import USER, Tokens
 
 PARTS = ['a', 'b', 'Work', 'x y', 'st*r', 'p%c', 'q"t', 'b\\s', 'l\nf', 'a&b',
          'é', '日本', 'inbox', 'Inbox', 'INBOX', 'c\rr', '(p)', '{3}', '~',
-         'NIL', 'a.b', 'zz' * 20]
+         'NIL', 'a.b', 'zz' * 20,
+         # names a directory-backed store uses for itself, and names that a
+         # line-oriented control file may not give back as written
+         'cur', 'new', 'tmp', 'a ', ' b', 'dovecot-uidlist', 'subscriptions']
 PATTERNS = ['*', '%', '%/%', '*/*', 'a*', 'a%', '*b', '%b', 'a/*', 'a/%',
             'INBOX', 'inbox', 'in*', 'I%', '*é*', '%日本', 'Work/%/%', '**',
             '%%', '*%', '%*', 'a/b', 'st*r', 'st\\*r', 'x y', '*\n*', 'l%f',
@@ -27,6 +30,9 @@ def gen_name(rng: random.Random, existing: list[str]) -> str:
     r = rng.random()
     if existing and r < 0.35:
         base = rng.choice(existing)
+        if '/' in base and rng.random() < 0.2:
+            # a proper ancestor of a name in use: perhaps never created
+            return base.rsplit('/', rng.randint(1, base.count('/')))[0]
         if rng.random() < 0.5 or base.upper() == 'INBOX':
             return base
         return base + '/' + rng.choice(PARTS)
